@@ -135,11 +135,18 @@ func readHeaderSize(reader io.ReaderAt) (int64, error) {
 	return headerSize, nil
 }
 
+// maxHeaderSize bounds the header: magic, version, metadata (at most 255 pairs of
+// 255+255 bytes), the prefix count and 65536 prefix/offset pairs of 10 bytes.
+const maxHeaderSize = 1 << 20
+
 func readHeader(reader io.ReaderAt) (*bucketToOffset, *indexmeta.Meta, int64, error) {
 	// read header size:
 	headerSize, err := readHeaderSize(reader)
 	if err != nil {
 		return nil, nil, 0, fmt.Errorf("failed to read header size: %w", err)
+	}
+	if headerSize > maxHeaderSize {
+		return nil, nil, 0, fmt.Errorf("invalid header size: %d", headerSize)
 	}
 	// read header bytes:
 	headerBuf := make([]byte, headerSize)
